@@ -39,6 +39,7 @@ LEVEL_NOTE = ("sampled cells of a finite product; programs are in fragment F wit
 DESIGN_REF = "DESIGN.md section 5, C05"
 
 STYLES = ["import", "import-as", "from-names", "from-names-as", "from-pkg-import-mod", "from-pkg-import-mod-as",
+          "from-pkg-import-mod-twice",
           "rel-from-dot-import-mod", "rel-from-mod-import-names", "star", "from-names-multi-as"]
 OPS = ["move-fn", "move-cls", "move-var", "move-module", "rename-module", "module-to-package", "move-package",
        "move-method"]
@@ -61,7 +62,7 @@ def gen_project(rnd):
     src_dotted = "pk.src" if src_in_pkg else "src"
     allowed = ["import", "import-as", "from-names", "from-names-as", "star", "from-names-multi-as"]
     if src_in_pkg:
-        allowed += ["from-pkg-import-mod", "from-pkg-import-mod-as"]
+        allowed += ["from-pkg-import-mod", "from-pkg-import-mod-as", "from-pkg-import-mod-twice"]
     if client_in_pkg:
         allowed += ["rel-from-dot-import-mod", "rel-from-mod-import-names"]
     style = rnd.choice(allowed)
@@ -123,6 +124,11 @@ def gen_project(rnd):
     elif style == "from-pkg-import-mod-as":
         C.append("from pk import src as s")
         use = {n: f"s.{n}" for n in ("fn", "Cls", "VAR", "Whole")}
+    elif style == "from-pkg-import-mod-twice":
+        # two separate statements import the module from its package, the second one under another name
+        C.append("from pk import src")
+        C.append("from pk import src as s2, inner")
+        use = {"fn": "src.fn", "Cls": "s2.Cls", "VAR": "s2.VAR", "Whole": "src.Whole"}
     elif style == "rel-from-dot-import-mod":
         C.append("from . import src")
         use = {n: f"src.{n}" for n in ("fn", "Cls", "VAR", "Whole")}
